@@ -50,6 +50,9 @@ type session struct {
 	// commit before the listener is registered (the seed is computed and the listener registered under one
 	// read lock), so the stream is the same as without the race.
 	RaceFirst bool `json:"race_first,omitempty"`
+	// Wide: the stored messages are two-field tokens although this subscriber may have no read mask (the
+	// sessions of the shared-bus family, multi.go: one collection, several differently configured subscribers)
+	Wide bool `json:"wide,omitempty"`
 }
 
 const raceGrace = 20 * time.Millisecond
@@ -69,7 +72,7 @@ func equivTok(kind, a, b string) bool {
 }
 
 func (s session) fenceAdd() string {
-	if s.Mask != "" {
+	if s.Mask != "" || s.Wide {
 		return "add:" + fenceID + ":ff"
 	}
 	return "add:" + fenceID + ":f"
@@ -127,7 +130,20 @@ type burstObs struct {
 	Panicked string
 }
 
-const fenceTimeout = 5 * time.Second
+// fenceTimeout bounds every wait on the real code (a write returning, a fence event arriving).  On the
+// code as it is nothing ever waits that long; on a broken tree a session that gets stuck costs two such
+// waits (the run and its confirmation), so once ONE stuck session has been confirmed the bound drops to
+// stuckTimeout for the rest of the run (and the family is abandoned after a few more): a broken pipeline
+// must not stretch the quick tier by minutes.
+var fenceTimeout = 5 * time.Second
+
+const stuckTimeout = 750 * time.Millisecond
+
+// stuckSeen counts the stuck sessions of all families; a family that meets one after another family has
+// already been abandoned gives up at once.
+var stuckSeen = 0
+
+func tooManyStuck(own int) bool { return own > 4 || (own > 0 && stuckSeen > 5) }
 
 func applyOp(c *resource.Collection, op string) error {
 	q := strings.Split(op, ":")
@@ -1075,9 +1091,11 @@ func runPull(f lib.Flags, res *lib.Result, drv *lib.Driver) {
 		s := genSession(r, bp, i < n/5)
 		if evalSession(res, s, drv, tieBP, tieLossy, mon) {
 			stuck++
-			if stuck > 6 {
+			stuckSeen++
+			fenceTimeout = stuckTimeout
+			if tooManyStuck(stuck) {
 				// every such session costs seconds; the pipeline is broken beyond doubt
-				err := fmt.Errorf("aborted after %d sessions in which a write or the fence did not come through within %s", stuck, fenceTimeout)
+				err := fmt.Errorf("aborted after %d sessions in which a write or the fence did not come through within the time limit", stuck)
 				tieBP.Fail(err)
 				tieLossy.Fail(err)
 				break
@@ -1125,6 +1143,15 @@ func evalSession(res *lib.Result, s session, drv *lib.Driver, tieBP, tieLossy *l
 		return
 	}
 	// lossy: seed from `pull`, each burst ∈ model set
+	model, code := lossyAnswers(strings.Split(ans[0], " ")[0], ans[1:], obs, tieLossy.Count)
+	tieLossy.Record(key, !s.Pred.Nil, s, model, code)
+	return
+}
+
+// lossyAnswers renders a lossy subscriber's observations against the model: the seed must be `seed`, the
+// delivered stream of burst i must be one of the `|`-separated streams of sets[i] (the model's set over all
+// recv/emit patterns); model side = the delivered stream when accepted, else the set.
+func lossyAnswers(seed string, sets []string, obs []burstObs, count func(string)) (string, string) {
 	var model, code []string
 	for bi, b := range obs {
 		events := b.Events
@@ -1134,12 +1161,16 @@ func evalSession(res *lib.Result, s session, drv *lib.Driver, tieBP, tieLossy *l
 				nseed++
 			}
 			code = append(code, "seed="+showChanges(events[:nseed]))
-			model = append(model, strings.Split(ans[0], " ")[0])
+			model = append(model, seed)
 			events = events[nseed:]
 		}
 		got := showChanges(events)
 		code = append(code, got)
-		set := strings.Split(ans[1+bi], "|")
+		if bi >= len(sets) {
+			model = append(model, "!no-model-answer")
+			continue
+		}
+		set := strings.Split(sets[bi], "|")
 		found := false
 		for _, st := range set {
 			if st == got {
@@ -1149,10 +1180,9 @@ func evalSession(res *lib.Result, s session, drv *lib.Driver, tieBP, tieLossy *l
 		if found {
 			model = append(model, got)
 		} else {
-			model = append(model, "one-of{"+ans[1+bi]+"}")
+			model = append(model, "one-of{"+sets[bi]+"}")
 		}
-		tieLossy.Count(fmt.Sprintf("burst=%d delivered=%d modelset=%d", len(b.Ops)-1, len(events)-1, len(set)))
+		count(fmt.Sprintf("burst=%d delivered=%d modelset=%d", len(b.Ops)-1, len(events)-1, len(set)))
 	}
-	tieLossy.Record(key, !s.Pred.Nil, s, strings.Join(model, " "), strings.Join(code, " "))
-	return
+	return strings.Join(model, " "), strings.Join(code, " ")
 }
